@@ -256,7 +256,7 @@ theorem edge_sub : ∀ r : Rose, ∀ p ∈ edges r, [p.1, p.2].Sublist r.ids
     intro p hp
     simp only [edges, List.mem_append, List.mem_map] at hp
     rcases hp with ⟨k, hk, rfl⟩ | hp
-    · refine List.Sublist.cons₂ i (List.singleton_sublist.2 ?_)
+    · refine List.Sublist.cons_cons i (List.singleton_sublist.2 ?_)
       rw [idsL_eq]
       exact List.mem_flatMap.2 ⟨k, hk, id_mem_ids k⟩
     · exact (edgeL_sub ks p hp).cons i
@@ -366,5 +366,37 @@ theorem branchTree_ranked (r : Rose) (pids : List Int) (h : C06.IsTree r pids) :
     have := List.idxOf_le_length (a := ((C08.branchesOf r)[c']).getLastD 0) (l := r.ids)
     omega
 
+
+/-- **the resampled tree is a well-formed sorted tree — `Rep` no longer a hypothesis**: for EVERY well-formed tree (`C06.IsTree`), every
+branch-resampler callback (any function; no condition on the number of samples is needed for this statement) and every pairing callback that is
+state-independent and returns only children it was given (`PairOK`), the resampled branch tree produced by the generated `bt_from_tree`
+represents a rose tree `root`, and for every fuel `≥ 2 n + 1` and `≥ root.size + 1` the generated `Resampler.__call__` returns a table with ids
+`0 .. m-1`, a `C07.WF` parent column, root first, every parent an earlier row, `1 + weight root` rows.
+Still open (hence the fuel condition is in terms of `root`): `root.size ≤` number of key nodes when `pair` returns every child once. -/
+theorem generated_resample_tree_wf (r : Rose) (pids : List Int) (h : C06.IsTree r pids) (hp : PairOK pair) (cbs : σ) :
+    ∃ root : BT, ∀ F : Nat, root.size + 1 ≤ 2 * r.size + F + 1 →
+      ∃ s' nid npid, resam_tree resample pair dupFirst dupLast (2 * r.size + F + 1) (Sub.rangeI pids.length) pids cbs = some (s', (nid, npid)) ∧
+        C07.WF npid ∧ npid.length = 1 + weight root ∧ nid = (List.range npid.length).map (fun (k : Nat) => (k : Int)) ∧
+        npid.head? = some (-1) ∧ ∀ k (h : k < npid.length), 0 < k → 0 ≤ npid[k] ∧ npid[k] < (k : Int) := by
+  obtain ⟨groups, hm, _⟩ := C08.branchTree_model_spec r pids h
+  let M : Branches.BranchTreeM :=
+    ⟨-1 :: (C08.branchesOf r).map (fun b => (((0 :: (C08.branchesOf r).map (fun b => b.getLastD 0)).idxOf (b.headD 0) : Nat) : Int)),
+      0 :: (C08.branchesOf r).map (fun b => b.getLastD 0), groups⟩
+  have ht : ∀ F, bt_from_tree (2 * r.size + F + 1) (Sub.rangeI pids.length) pids = some (RefineBranchTree.toObj M) := fun F => by
+    rw [C08.generated_fromTree_eq_model r pids h F, hm]; rfl
+  obtain ⟨root, hrep⟩ := rep_of_ranked pair dupFirst dupLast (RefineBranchTree.toObj M).id (RefineBranchTree.toObj M).pid
+    (mapDict resample cbs [] (RefineBranchTree.toObj M).branches).2
+    (by simp [M, RefineBranchTree.toObj, Py.range, Sub.rangeI]) (by simp [M, RefineBranchTree.toObj]) hp _ (branchTree_ranked r pids h)
+  exact ⟨root, fun F hf => generated_resample_tree_wf_partial resample pair dupFirst dupLast root _ _ pids cbs _ (ht F) hf hrep⟩
+
 end
+
+/-- non-vacuity: the pairing used in the kernel-evaluated example of `Props/C16Tree.lean` (branches and children in order) satisfies `PairOK`;
+so `generated_resample_tree_wf` applies to it on every tree, e.g. on the Y-shaped tree evaluated there -/
+example : PairOK (σ := Nat) (fun s bs cs => (s, List.zip bs cs)) :=
+  ⟨fun _ _ _ _ => rfl, fun _ _ _ _ hpr => (List.of_mem_zip hpr).2⟩
+example : C06.IsTree (.node 0 [.node 1 [.node 2 [], .node 3 []]]) [-1, 0, 1, 1] := by
+  refine ⟨⟨?_, by decide⟩, by decide, rfl, rfl⟩
+  simp [Agrees, AgreesL, tableKids, Rose.id, Sub.rangeI, List.range, List.range.loop]
+
 end C16Tree
